@@ -11,7 +11,8 @@ A *logical* thread is a caller; at wrapper level the real thread that hits the y
 `PrimitiveJob._submit` spawned for that caller's job: it is attributed to the logical thread that is currently running.
 
 Semantics of the simulated primitives (the same few lines as `wait_end`/`notify_one`/`free` in Batch/Monitor.v):
-  acquire(blocking)  enabled iff the lock is free                try-acquire  always enabled, answers whether it got it
+  acquire(blocking)  enabled iff the lock is free (a TIMED acquire of a held lock may time out: answers False)
+  try-acquire        always enabled, answers whether it got it
   release            always enabled (RuntimeError if not locked) enter/exit   acquire/release of the condition's lock
   wait-begin         releases the condition's lock, joins the wait set
   wait-end           enabled iff the condition's lock is free and the thread was notified, or (timed) the controller
@@ -40,7 +41,10 @@ class CoopLock:
 
     def acquire(self, blocking=True, timeout=-1):
         if blocking:
-            return self.ctl.yield_op(("acquire", self))
+            # acquire(timeout=t) with t >= 0 is a TIMED acquire: while another thread holds the lock the controller may
+            # let it time out (it then answers False), exactly like the timed condition wait
+            timed = timeout is not None and timeout >= 0
+            return self.ctl.yield_op(("acquire", self, timed))
         return self.ctl.yield_op(("tryacquire", self))
 
     def release(self):
@@ -207,6 +211,8 @@ class Controller:
             return []
         d = rec.pending
         k = d[0]
+        if k == "acquire" and len(d) > 2 and d[2]:
+            return [0] if d[1].owner is None else [1]  # timed acquire of a held lock: it can only time out
         if k in ("acquire", "enter"):
             return [0] if d[1].owner is None else []
         if k == "wait_end":
@@ -234,7 +240,10 @@ class Controller:
         d = rec.pending
         k = d[0]
         ans = True
-        if k == "acquire" or k == "enter":
+        if k == "acquire" and len(d) > 2 and d[2] and d[1].owner is not None:
+            assert choice == 1, "a timed acquire of a held lock can only time out"
+            ans = False
+        elif k == "acquire" or k == "enter":
             assert d[1].owner is None, "scheduled a disabled acquire"
             d[1].owner = tid
         elif k == "tryacquire":
